@@ -46,5 +46,9 @@ def run(ctx):
     # ---------------------------------------------------------------- C20.ARGS
     from ..rules_common import check_call_arguments
     check_call_arguments(ctx, "C20.ARGS", "C20")
+    from ..rules_common import check_effect_tables
+    check_effect_tables(ctx, "C20")
+    from ..rules_common import check_presence_tests, ARG_SCOPE
+    check_presence_tests(ctx, "C20.PRESENCE", classes=ARG_SCOPE.get("C20", []))
 
 
